@@ -1,14 +1,20 @@
 import GcmpyModel.Lemmas.Loaders
+import GcmpyModel.Lemmas.LoadersLimit
 /-!
 # C06 — manual, empirical, marginal and function joint-degree loaders
 
 Model: `GcmpyModel/Model/Loaders.lean` (`manual`, `counter`, `empirical`, `product`, `rangeAB`,
 `marginalWeight`, `normalise`, `marginalDirect`, `sampledCalls`, `transpose`, `marginalSampled`,
 `functionLoader`).  Weights are exact rationals (core `Rat`); callables are arbitrary functions.
-All proofs live in `GcmpyModel/Lemmas/Loaders.lean` (`aux_*`); this file only states the properties.
+All proofs live in `GcmpyModel/Lemmas/Loaders.lean` (`aux_*`) and `GcmpyModel/Lemmas/LoadersLimit.lean`
+(limit algebra); this file only states the properties.
 
-Everything is proved except the sampling-mode limit, which is kept as the unproved, unasserted
-proposition `marginal_sampled_limit_full`.
+Everything is proved.  The sampling-mode limit `marginal_sampled_limit_full` is proved
+(`marginal_sampled_limit`) as a CONDITIONAL statement: its hypotheses (a) and (b) are the
+law-of-large-numbers facts about `random.choices` (marginal frequencies converge, columns are
+asymptotically independent); they hold almost surely for i.i.d. draws but remain assumptions here —
+no probability is modelled.  What is proved is the deterministic step from (a), (b) to the entry-wise
+convergence of the sampled table.
 -/
 namespace Gcmpy.Loaders
 open Gcmpy
@@ -139,13 +145,18 @@ theorem sampled_calls_aligned (fs : List (Nat → Rat)) (bounds : List (Nat × N
        n) :=
   aux_sampled_calls_aligned fs bounds n i h
 
-/-- NOT PROVED, NOT ASSERTED — documentation of the law-of-large-numbers step ("in the limit of many
-samples") of the sampling mode.  `cols n` are the per-dimension sample columns at sample size `n`.
+/-- Statement of the law-of-large-numbers step ("in the limit of many samples") of the sampling
+mode; proved below as `marginal_sampled_limit`.  `cols n` are the per-dimension sample columns at
+sample size `n`.
 If (a) every column's frequencies converge to its normalised marginal on the inclusive range and
 (b) the columns are asymptotically independent (joint row frequency minus product of column
 frequencies tends to 0) — both of which hold almost surely for the i.i.d. draws of `random.choices`,
-a probabilistic fact outside any executable model — then every entry of the sampled table converges
-to the product of the normalised marginals on the INCLUSIVE box (and to 0 off the box). -/
+a probabilistic fact outside any executable model and therefore kept as HYPOTHESES — then every entry
+of the sampled table converges to the product of the normalised marginals on the INCLUSIVE box (and
+to 0 off the box).  Corner cases: with no dimension at all (`bounds = []`) hypothesis (b) is
+unsatisfiable (the sampled table is empty, so the frequency of the key `[]` is `0`, never close to
+the empty product `1`), so the statement holds vacuously there; `n = 0` is harmless (`0 / 0 = 0` on
+both sides and only large `n` matter). -/
 def marginal_sampled_limit_full : Prop :=
   ∀ (fs : List (Nat → Rat)) (bounds : List (Nat × Nat)) (cols : Nat → List (List Nat)),
     -- admissible weights for `random.choices`: non-negative with a positive total per dimension
@@ -171,6 +182,111 @@ def marginal_sampled_limit_full : Prop :=
               then (fs.getD i (fun _ => 0)) d / ((sampledCalls fs bounds 0).getD i ([], [], 0)).2.1.sum
               else 0).prod
            else 0)| < ε
+
+/-- PROVED (conditional on (a), (b)): the deterministic limit algebra of the sampling mode.
+For every `n` the table entry at `k` is `count k (transpose (cols n)) / n` (`0` for a key of the
+wrong arity); by (b) it is eventually within `ε/2` of the product of the column frequencies, and by
+(a) that product — finitely many factors in `[0,1]` — is eventually within `ε/2` of the product of
+the normalised marginals.  Hypotheses (a) and (b) are the law-of-large-numbers facts about
+`random.choices`; they are assumed, not proved. -/
+theorem marginal_sampled_limit : marginal_sampled_limit_full := by
+  intro fs bounds cols hadm hshape ha hb k ε hε
+  by_cases hk : k.length = bounds.length
+  · rw [if_pos hk]
+    obtain ⟨N1, h1⟩ := hb k hk (ε / 2) (by positivity)
+    -- the product of the column frequencies converges to the product of the limits
+    have hprod := prod_eventually_close k.zipIdx
+      (fun n p => ((((cols n).getD p.2 []).count p.1 : Nat) : Rat) / (n : Rat))
+      (fun p => if p.1 ∈ ((sampledCalls fs bounds 0).getD p.2 ([], [], 0)).1
+        then (fs.getD p.2 (fun _ => 0)) p.1 / ((sampledCalls fs bounds 0).getD p.2 ([], [], 0)).2.1.sum
+        else 0)
+      (fun n p _ => column_freq_mem_unit (cols n) n (hshape n).2 p.2 p.1)
+      (fun p hp => limit_factor_mem_unit fs bounds hadm p.2
+        (by have := (List.mem_zipIdx' (x := p.1) (i := p.2) hp).1; omega) p.1)
+      (fun p hp => ha p.2
+        (by have := (List.mem_zipIdx' (x := p.1) (i := p.2) hp).1; omega) p.1)
+    obtain ⟨N2, h2⟩ := hprod (ε / 2) (by positivity)
+    refine ⟨max N1 N2, fun n hn => ?_⟩
+    have e1 := h1 n (le_trans (le_max_left _ _) hn)
+    have e2 := h2 n (le_trans (le_max_right _ _) hn)
+    rw [marginalSampled_getD (cols n) n (hshape n).2 k]
+    have tri : ∀ x y z : Rat, |x - y| < ε / 2 → |y - z| < ε / 2 → |x - z| < ε := by
+      intro x y z hxy hyz
+      have := abs_sub_le x y z
+      linarith
+    exact tri _ _ _ e1 e2
+  · rw [if_neg hk]
+    refine ⟨0, fun n _ => ?_⟩
+    rw [marginalSampled_getD_of_length_ne (cols n) k (by rw [(hshape n).1]; exact hk)]
+    simpa using hε
+
+/-- the hypotheses of `marginal_sampled_limit` are satisfiable by a non-trivial family of columns:
+    one dimension with the single admissible degree `3`, every sample equal to `3` -/
+example : ∃ (fs : List (Nat → Rat)) (bounds : List (Nat × Nat)) (cols : Nat → List (List Nat)),
+    bounds ≠ [] ∧ (∀ n, cols n = [List.replicate n 3]) ∧
+    (∀ call ∈ sampledCalls fs bounds 0, (∀ w ∈ call.2.1, 0 ≤ w) ∧ 0 < call.2.1.sum) ∧
+    (∀ n, (cols n).length = bounds.length ∧ ∀ c ∈ cols n, c.length = n) ∧
+    (∀ i, i < bounds.length → ∀ x : Nat, ∀ ε : Rat, 0 < ε → ∃ N, ∀ n, N ≤ n →
+      |((((cols n).getD i []).count x : Nat) : Rat) / (n : Rat)
+        - (if x ∈ ((sampledCalls fs bounds 0).getD i ([], [], 0)).1
+           then (fs.getD i (fun _ => 0)) x / ((sampledCalls fs bounds 0).getD i ([], [], 0)).2.1.sum
+           else 0)| < ε) ∧
+    (∀ k : JD, k.length = bounds.length → ∀ ε : Rat, 0 < ε → ∃ N, ∀ n, N ≤ n →
+      |(((transpose (cols n)).count k : Nat) : Rat) / (n : Rat)
+        - (k.zipIdx.map fun (d, i) => ((((cols n).getD i []).count d : Nat) : Rat) / (n : Rat)).prod| < ε) := by
+  refine ⟨[fun _ => 1], [(3, 3)], fun n => [List.replicate n 3], by simp, fun _ => rfl, ?_, ?_, ?_, ?_⟩
+  · intro call hc
+    have hs : sampledCalls [fun _ => (1 : Rat)] [(3, 3)] 0 = [([3], [1], 0)] := by decide +kernel
+    rw [hs, List.mem_singleton] at hc
+    subst hc
+    simp
+  · intro n; simp
+  · intro i hi x ε hε
+    have hi0 : i = 0 := by simpa using hi
+    subst hi0
+    have hs : sampledCalls [fun _ => (1 : Rat)] [(3, 3)] 0 = [([3], [1], 0)] := by decide +kernel
+    refine ⟨1, fun n hn => ?_⟩
+    have hn0 : (n : Rat) ≠ 0 := by exact_mod_cast (by omega : n ≠ 0)
+    rw [hs]
+    by_cases hx : x = 3
+    · subst hx; simpa [List.count_replicate, div_self hn0] using hε
+    · have hx' : ¬ 3 = x := fun e => hx e.symm
+      simpa [List.count_replicate, hx, hx'] using hε
+  · intro k hk ε hε
+    refine ⟨0, fun n _ => ?_⟩
+    obtain ⟨d, rfl⟩ : ∃ d, k = [d] := by
+      match k, hk with
+      | [d], _ => exact ⟨d, rfl⟩
+    have hT : transpose [List.replicate n 3] = List.replicate n [3] := by
+      have : transpose [List.replicate n 3] = (List.range n).map fun _ => [3] := by
+        simp only [transpose, List.length_replicate]
+        apply List.map_congr_left
+        intro r hr
+        have hr' : r < n := List.mem_range.1 hr
+        simp [List.getD_eq_getElem?_getD, hr']
+      rw [this]; simp
+    rw [hT]
+    by_cases hd : d = 3
+    · subst hd; simpa [List.count_replicate] using hε
+    · have hd' : ¬ 3 = d := fun e => hd e.symm
+      simpa [List.count_replicate, hd, hd'] using hε
+
+/-- the zero-dimension corner (`bounds = []`, hence no column): hypothesis (b) at the key `[]` cannot
+    hold — the sampled table is empty, so the row frequency is `0` while the empty product is `1` —
+    which is why `marginal_sampled_limit_full` holds (vacuously) there although the table entry `0`
+    does not tend to the empty product `1` -/
+example (cols : Nat → List (List Nat)) (hshape : ∀ n, (cols n).length = ([] : List (Nat × Nat)).length) :
+    ¬ ∃ N, ∀ n, N ≤ n →
+      |(((transpose (cols n)).count ([] : JD) : Nat) : Rat) / (n : Rat)
+        - ((([] : JD).zipIdx.map fun (d, i) =>
+            ((((cols n).getD i []).count d : Nat) : Rat) / (n : Rat)).prod)| < 1 := by
+  rintro ⟨N, h⟩
+  have h0 := h N le_rfl
+  have hc : cols N = [] := List.eq_nil_of_length_eq_zero (hshape N)
+  rw [hc] at h0
+  simp [transpose] at h0
+
+example : (Dict.get (marginalSampled []) []).getD 0 = 0 := by decide +kernel
 
 /-! ## 6. function loader -/
 
